@@ -215,6 +215,16 @@ fn judge(w: &mut World, ctx: ReqCtx, p: &Prop, res: &Res, live: bool, dup: bool)
             }
         }
         Legal::Yes => {
+            // DISCONNECT is encoded into a fixed control buffer that no application-supplied
+            // buffer can enlarge: running out of *that* is not the resource answer every request
+            // may get - the property is never accepted, whatever the configuration
+            if ctx == ReqCtx::Disconnect && *res == Res::BufferTooSmall && !overlong(p) {
+                w.violate_force(
+                    "C19",
+                    "legal-refused/disconnect/BufferTooSmall-from-the-fixed-control-buffer".into(),
+                    format!("disconnect_with carrying the legal property {:?} was refused with BufferTooSmall", p),
+                );
+            }
             if *res == Res::InvalidRequest {
                 w.violate_force(
                     "C19",
